@@ -4,6 +4,8 @@ from core import *
 import seqengine as se
 
 
+MAX_SCRIPTS_PER_WORLD = 1500000
+
 def finding_key(pid, rej):
     # identifies a failing history independently of run-time details
     import hashlib
@@ -100,12 +102,19 @@ def run_plan(pid, tier, seed, plan, evidence_name=None):
         world_notes = []
         tasks = []
         exe_of = {}
+        capped = []
         for wi, (w, exe) in enumerate(zip(worlds, exes)):
             exe_of[w["name"]] = (exe, w)
             for tag, scripts, n, mfrac in script_sets:
                 if w.get("only_tags") and tag not in w["only_tags"]:
                     continue
                 frac = w.get("fraction", 1.0) * mfrac
+                # a cap per (world, script set): the thorough covers reach tens of millions of scripts, which no world can replay in hours;
+                # beyond the cap the set is sampled (seeded), and the evidence says so (exhaustive = false, scripts run < scripts generated)
+                cap = plan.get("max_scripts_per_world", MAX_SCRIPTS_PER_WORLD)
+                if n * frac > cap:
+                    frac = cap / float(n)
+                    capped.append("%s/%s" % (w["name"], tag))
                 use = scripts
                 nuse = n
                 if w.get("without_ops"):      # operations this world's types do not have (peekEvent needs copyable arguments): scripts using them are left out
@@ -211,7 +220,8 @@ def run_plan(pid, tier, seed, plan, evidence_name=None):
         cov = {"states": states, "transitions": transitions, "traces_validated_against_impl": total_exec,
                "evaluations": total_events, "distinct_nontrivial": nontrivial,
                "rule": plan["rule"], "samples": script_samples[:4] + samples[:1],
-               "exhaustive": all(w.get("fraction", 1.0) >= 1.0 for w in worlds[:1]) and all(m.get("role", "cover") != "simulate" for m in plan["models"][:1]),
+               "exhaustive": not capped and all(w.get("fraction", 1.0) >= 1.0 for w in worlds[:1]) and all(m.get("role", "cover") != "simulate" for m in plan["models"][:1]),
+               "sampled_because_of_size": capped,
                "models": model_notes, "worlds": world_notes, "defect_sensitivity": defect_notes, "interp_stats": stats,
                "repo_include_hash": repo_hash(), "further_rejections_not_individually_reported": extra_rejections,
                "cross_configuration_groups_compared": len(groups), "cross_configuration_differences": len(cross)}
